@@ -1,0 +1,56 @@
+//go:build verif
+
+// Exports for the verification harness in /verif (build tag `verif` only): a read-only view of a
+// Group's input slots and a GroupOption carrying the (otherwise unexported) hook-session callback.
+
+package logic
+
+// VerifAdmissionState is a snapshot of the fields the admission check (hasInSession) reads.
+type VerifAdmissionState struct {
+	RtmpPub, RtspPub, CustomizePub, PsPub string // unique key of the session in the slot, "" if empty
+	RtmpPull, RtspPull                    string
+	IsSessionPulling                      bool
+	ApiEnable                             bool
+	StartCount                            int
+	HookAlive                             bool
+	RtmpSubs, RtspSubs                    []string
+}
+
+func (group *Group) VerifAdmission() (st VerifAdmissionState) {
+	group.mutex.Lock()
+	defer group.mutex.Unlock()
+	if group.rtmpPubSession != nil {
+		st.RtmpPub = group.rtmpPubSession.UniqueKey()
+	}
+	if group.rtspPubSession != nil {
+		st.RtspPub = group.rtspPubSession.UniqueKey()
+	}
+	if group.customizePubSession != nil {
+		st.CustomizePub = group.customizePubSession.UniqueKey()
+	}
+	if group.psPubSession != nil {
+		st.PsPub = group.psPubSession.UniqueKey()
+	}
+	if group.pullProxy.rtmpSession != nil {
+		st.RtmpPull = group.pullProxy.rtmpSession.UniqueKey()
+	}
+	if group.pullProxy.rtspSession != nil {
+		st.RtspPull = group.pullProxy.rtspSession.UniqueKey()
+	}
+	st.IsSessionPulling = group.pullProxy.isSessionPulling
+	st.ApiEnable = group.pullProxy.apiEnable
+	st.StartCount = group.pullProxy.startCount
+	st.HookAlive = group.customizeHookSessionContext != nil
+	for s := range group.rtmpSubSessionSet {
+		st.RtmpSubs = append(st.RtmpSubs, s.UniqueKey())
+	}
+	for s := range group.rtspSubSessionSet {
+		st.RtspSubs = append(st.RtspSubs, s.UniqueKey())
+	}
+	return
+}
+
+// VerifGroupOption builds the GroupOption ServerManager.CreateGroup builds from WithOnHookSession.
+func VerifGroupOption(onHookSession func(uniqueKey string, streamName string) ICustomizeHookSessionContext) GroupOption {
+	return GroupOption{onHookSession: onHookSession}
+}
